@@ -110,7 +110,9 @@ def allowed_bins(cls, cfg, N, nfft, cplx, window=None):
 def check_basic(cls, x, cfg, NFFT, sampling, cplx, route='fresh'):
     """the clauses every default PSD must meet; returns list of (clause, what)"""
     bad = []
-    p = E.build(cls, x, cfg, NFFT=NFFT, sampling=sampling, scale_by_freq=False, route=route)
+    # scale_by_freq on or off (derived from the case): the clauses below do not depend on a positive constant factor
+    sbf = E.route_for(x, cls, NFFT, sampling)[1]
+    p = E.build(cls, x, cfg, NFFT=NFFT, sampling=sampling, scale_by_freq=sbf, route=route)
     psd = np.asarray(p.psd); f = np.asarray(p.frequencies())
     nfft = resolve_nfft(NFFT, len(x))
     want = nfft if cplx else (nfft // 2 + 1 if nfft % 2 == 0 else (nfft + 1) // 2)
@@ -140,7 +142,7 @@ def tone_data(N, nfft, k, cplx, noise, seed):
 def check_tone(cls, cfg, N, NFFT, sampling, k, cplx, noise, seed):
     nfft = resolve_nfft(NFFT, N)
     x = tone_data(N, nfft, k, cplx, noise, seed)
-    bad, p = check_basic(cls, x, cfg, NFFT, sampling, cplx)
+    bad, p = check_basic(cls, x, cfg, NFFT, sampling, cplx, E.route_for(x, cls, 'tone')[0])
     if bad or cls == 'pma':
         return bad
     psd = np.asarray(p.psd); f = np.asarray(p.frequencies())
